@@ -313,6 +313,48 @@ def _group_n4_nested(sub_in: int, sub_out: int, at: int, after: int) -> bool:
     return _untraced(_group_body, 4, sub_in, sub_out, at, True, after, False, after == 2)
 
 
+def _all_heralded_body(n, at, k, photons, nested, mpl, loss):
+    """a sub-circuit whose every mode is heralded becomes a group without any free mode"""
+    c = lw.Circuit(n)
+    c.bs(0)
+    s = lw.Circuit(k)
+    s.ps(0, 0.3)
+    if k == 2:
+        s.bs(0)
+    try:
+        for m in range(k):
+            s.herald(photons if m == 0 else 0, m)
+        if nested:
+            outer = lw.Circuit(2)
+            outer.add(s, 1)
+            c.add(outer, at, group=True, name="outer")
+        else:
+            c.add(s, at)
+        c.ps(0, 0.2)
+    except REJECT:
+        return True
+    before = _observe(c)
+    if not _show(c, "mpl" if mpl else "svg", loss, False):
+        return False
+    return _observe(c) == before
+
+
+def _all_heralded_mpl(n: int, at: int, k: int, photons: int, nested: bool) -> bool:
+    """
+    pre: 2 <= n <= 3 and 0 <= at <= n and 1 <= k <= 2 and 0 <= photons <= 1
+    post: _
+    """
+    return _untraced(_all_heralded_body, n, at, k, photons, nested, True, False)
+
+
+def _all_heralded_svg(n: int, at: int, k: int, photons: int, nested: bool) -> bool:
+    """
+    pre: 2 <= n <= 3 and 0 <= at <= n and 1 <= k <= 2 and 0 <= photons <= 1
+    post: _
+    """
+    return _untraced(_all_heralded_body, n, at, k, photons, nested, False, photons == 1)
+
+
 def _labels_and_type_body(n, herald, n_labels, dtype):
     c = lw.Circuit(n)
     c.bs(0)
